@@ -532,9 +532,9 @@ func init() {
 			for d := 1; d <= 4; d++ {
 				sp = append(sp, c08Space(flat, msg, d, 3))
 			}
-			cd := 5
+			cd := 6
 			if tier == "thorough" {
-				cd = 6
+				cd = 7
 			}
 			for d := 4; d <= cd; d++ {
 				sp = append(sp, c08Space(flat, cyc, d, 3))
